@@ -36,8 +36,8 @@ ChunkLists == {<< C(<<"x">>, <<>>) >>,
                       {<< C(<<"x">>, <<E0(<<"e">>), E1(<<"f">>, <<"1">>)>>) >>,
                        << C(<<"a", "b", "c", "d", "e", "f", "g", "h", "i", "j", "k">>, <<>>) >>})
 LastExts == IF Level = 1 THEN {<<>>} ELSE {<<>>, <<E0(<<"l">>)>>}
-Trailers == {<<>>} \cup {<<H(<<"T">>, o, <<"v">>)>> : o \in (IF Level = 1 THEN {<<SP>>} ELSE Ows)}
-Extras == IF Level = 1 THEN {<<>>, <<"Z">>} ELSE {<<>>, <<"Z">>, <<CR, LF>>, <<"G", "E">>}
+Trailers == {<<>>} \cup {<<H(<<"T">>, o, <<"v">>)>> : o \in (IF Level = 1 THEN {<<SP>>} ELSE {<<>>, <<SP>>})}
+Extras == IF Level = 1 THEN {<<>>, <<"Z">>} ELSE {<<>>, <<"Z">>, <<CR, LF>>}
 
 ReqMsgs == {Req(Get, Http11, hs, <<>>, None) : hs \in Heads}
             \cup {Req(Post, Http11, <<>>, o, Fixed(d)) : o \in Ows, d \in Datas}
